@@ -387,6 +387,48 @@ def manifests(maxlen):
                 yield [ENTRIES[i] for i in combo]
 
 
+def shipped_manifest(workdir):
+    """The manifest that ships with the server (web/manifest.json of the tree under test): every entry is
+    registered; every listed path requested once opens exactly its file; and the documented Capture -> Retrieve
+    pair works: the file the capture handler writes is the file the `retrieve` path runs."""
+    from .. import repo as _repo
+    path = os.path.join(os.environ.get('BARDOLPH_REPO', '/repo'), 'web', 'manifest.json')
+    manifest = json.load(open(path))
+    s = Sys(manifest, workdir)
+    n = 0
+    bad = static_checks(s)
+    if bad:
+        return n, [(bad[0], bad[1], [('shipped-manifest',)])]
+    viol = []
+    before = set(os.listdir('scripts'))
+    r = apply(s, ('capture',))
+    n += 1
+    if r not in (None, 'skip'):
+        viol.append((r[0], r[1], [('capture',)]))
+    written = sorted(set(os.listdir('scripts')) - before)
+    nlog = len(s.log)
+    try:
+        s.request('/retrieve')
+    except Exception as ex:
+        viol.append(('run-request-raises', 'retrieve: %r' % (ex,), [('capture',), ('get', 'retrieve')]))
+    n += 1
+    opened = [os.path.basename(x[1]) for x in s.log[nlog:] if x[0] == 'from_file']
+    if len(written) != 1 or opened != written:
+        viol.append(('retrieve-does-not-run-what-capture-wrote',
+                     'capture wrote %r, the retrieve path opened %r' % (written, opened),
+                     [('capture',), ('get', 'retrieve')]))
+    for e in s.manifest:
+        pth = entry_path(e)
+        if not pth or '/' in pth or pth == 'retrieve' or ('/' + pth) in front_end.blueprint.routes:
+            continue            # the fixed routes (/capture, /off, /stop-all, ...) have their own documented meaning
+        s2 = Sys(manifest, workdir)
+        r = apply(s2, ('get', pth))
+        n += 1
+        if r not in (None, 'skip'):
+            viol.append((r[0], r[1], [('shipped-manifest',), ('get', pth)]))
+    return n, viol
+
+
 def _worker(rank, n, maxlen, depth):
     workdir = '/var/tmp/c20_%d' % os.getpid()
     os.makedirs(workdir, exist_ok=True)
@@ -398,6 +440,12 @@ def _worker(rank, n, maxlen, depth):
             st['transitions'] += nd
             for kind, detail, hist in dviol:
                 st['viol'][kind] = [1, detail, [ENTRIES[0]], hist, (9, 9)]
+        if rank == 1 % n:
+            nd, sviol = shipped_manifest(workdir)
+            st['transitions'] += nd
+            assert nd > 5
+            for kind, detail, hist in sviol:
+                st['viol'].setdefault(kind, [1, detail, [{'file_name': 'web/manifest.json of the tree'}], hist, (9, 9)])
         for i, man in enumerate(manifests(maxlen)):
             if i % n != rank:
                 continue
